@@ -20,7 +20,7 @@ MANIFEST = dict(
          'values, cancels, switches, ready-callback order shuffled) against the model driver - every GeckoConfig member after each '
          'switch, the wake time of every sleeper, the state of the shared future - plus the facade rule on real GeckoPump / '
          'GeckoBlower / GeckoAsyncFacade objects; direct monitors on the real code with timer jitter on.'
-         ' Since session 3: the facade rule is exercised on facades built by the real constructor, observing the live table (with the opposite table installed beforehand), and over histories of real facades (reconnect with a pump running, external mode switch, ticks). config_change_state_inventory: the facade keeps no remembered mode. Device changes arrive as misaligned 2-byte words and refresh segments. Session 5: device_change_reaches_the_facade_whatever_happened_before (the notification walk keeps no memory); real-facade histories in which a client callback watching a pump or blower fails once - everything afterwards must still switch the table. A run on the virtual loop in which nothing is runnable and no timer is pending is reported as a verdict (Deadlock), not a hung check. sleepers_share_the_current_future: over the regenerated skeleton of config_sleep the shared future is replaced only when absent or resolved, and the wait on it is the last thing the coroutine does.',
+         ' Since session 3: the facade rule is exercised on facades built by the real constructor, observing the live table (with the opposite table installed beforehand), and over histories of real facades (reconnect with a pump running, external mode switch, ticks). config_change_state_inventory: the facade keeps no remembered mode. Device changes arrive as misaligned 2-byte words and refresh segments. Session 5: device_change_reaches_the_facade_whatever_happened_before (the notification walk keeps no memory); real-facade histories in which a client callback watching a pump or blower fails once - everything afterwards must still switch the table. A run on the virtual loop in which nothing is runnable and no timer is pending is reported as a verdict (Deadlock), not a hung check. sleepers_share_the_current_future: over the regenerated skeleton of config_sleep the shared future is replaced only when absent or resolved, and the wait on it is the last thing the coroutine does. Round 14: script op `manager` (another task manager entered and left while sleepers sleep).',
     note='Partial: the timing clauses are theorems about the tick model (time = integer milliseconds of the virtual clock); real '
          'timer skew of an event loop is outside, the jittered runs only bound it. Assumed: asyncio.wait(timeout=) semantics, one '
          'event loop (the module-level future is foreign to a second loop), cancellation delivered at the next suspension point. '
@@ -53,7 +53,8 @@ def _members(cfg):
 def run_script(script):
     """Execute a script on the REAL config.py. Returns {"events": [...], "future": none|pending|done, "end_ms": n} or {"error": ...}.
 
-    ops: [t_ms, "sleep", id, delay_ms] | [t_ms, "loop", base_id, n, member] | [t_ms, "mode", 0|1] | [t_ms, "cancel", id] | [t_ms, "yield"]
+    ops: [t_ms, "sleep", id, delay_ms] | [t_ms, "loop", base_id, n, member] | [t_ms, "mode", 0|1] | [t_ms, "cancel", id] | [t_ms, "yield"] |
+         [t_ms, "manager"] (another task manager is entered and left: what a second spa manager in the process does at start-up)
     """
     sched = script.get("sched", {})
 
@@ -94,6 +95,15 @@ def run_script(script):
                 tasks[op[2]] = loop.create_task(looper(op[2], op[2], op[3], op[4]))
             elif kind == "yield":
                 await asyncio.sleep(0)
+            elif kind == "manager":
+                # the start-up / shut-down glue of ANOTHER task manager (a second spa manager in the same process): entered and left at
+                # once - its own housekeeping task is cancelled before it first sleeps, so no sleeper of its own takes part
+                from geckolib.async_tasks import AsyncTasks
+                try:
+                    async with AsyncTasks():
+                        pass
+                except Exception as e:  # noqa
+                    ev.append(["raised", loop.ms(), -1, f"manager: {type(e).__name__}: {e}"])
             elif kind == "mode":
                 try:
                     cfg.set_config_mode(bool(op[2]))
@@ -248,8 +258,10 @@ def gen_random(rng, sched, n=None):
             nid += 1
         elif k < 0.75:
             ops.append([t, "mode", rng.randint(0, 1)])
-        elif k < 0.87:
+        elif k < 0.84:
             ops.append([t, "yield"])
+        elif k < 0.87:
+            ops.append([t, "manager"])
         elif k < 0.95 and live:
             ops.append([t, "cancel", rng.choice(live)])
         else:
@@ -287,6 +299,9 @@ RACES = [
     [[0, "sleep", 1, 1000], [0, "sleep", 2, 1000], [0, "yield"], [100, "cancel", 1], [200, "mode", 1]],
     [[0, "loop", 100, 4, "TASK_TIDY_FREQUENCY_IN_SECONDS"], [0, "loop", 200, 4, "PING_FREQUENCY_IN_SECONDS"], [0, "loop", 300, 3, "FACADE_UPDATE_FREQUENCY_IN_SECONDS"],
      [500, "mode", 1], [3000, "mode", 0], [3100, "mode", 1], [9000, "mode", 0]],
+    # sleepers of one manager, then a SECOND manager starts up in the same process, then a switch: everybody is woken
+    [[0, "sleep", 1, 60000], [0, "sleep", 2, 45000], [0, "yield"], [100, "manager"], [200, "sleep", 3, 60000], [300, "mode", 1], [400, "sleep", 4, 500]],
+    [[0, "sleep", 1, 60000], [0, "yield"], [100, "mode", 1], [150, "sleep", 2, 60000], [200, "manager"], [250, "manager"], [300, "mode", 0]],
 ]
 
 
